@@ -226,6 +226,53 @@ func cmdCheck(args []string) int {
 		}(c, fn)
 	}
 	wg.Wait()
+	// `callers` clauses: package-wide call-site check (K5)
+	for _, c := range units {
+		for _, cl := range c.get("callers") {
+			if !hasProp(cl.Props, id) {
+				continue
+			}
+			target := P.findFunc(c.Pkg, c.Key)
+			if target == nil {
+				continue
+			}
+			allowed := map[string]bool{}
+			for _, a := range cl.Args {
+				allowed[a] = true
+			}
+			found := map[string]bool{}
+			for fn := range P.allFuncs {
+				if !inFalco(fn) || fn.Blocks == nil {
+					continue
+				}
+				for _, b := range fn.Blocks {
+					for _, ins := range b.Instrs {
+						uses := false
+						if call, ok := ins.(ssa.CallInstruction); ok && call.Common().StaticCallee() == target {
+							uses = true
+						}
+						var ops []*ssa.Value
+						for _, op := range ins.Operands(ops) {
+							if op != nil && *op == ssa.Value(target) {
+								uses = true
+							}
+						}
+						if uses && fn != target {
+							found[fn.Name()] = true
+						}
+					}
+				}
+			}
+			for caller := range found {
+				st := "unsat"
+				if !allowed[caller] {
+					st = "failed"
+				}
+				rep.add(&OblResult{Name: fmt.Sprintf("%s#callers:%s", shortFn(target), caller), Kind: "K5", Status: st, Backend: "call-site scan (no solver)",
+					Text: "only " + strings.Join(cl.Args, ", ") + " may call " + target.Name(), Props: cl.Props, Fn: shortFn(target)})
+			}
+		}
+	}
 	// property-specific analyses
 	for _, a := range analyses[id] {
 		a(P, rep, known, cfg)
